@@ -228,11 +228,22 @@ class GriffeLoader:
         # this time with the user-configured `external` setting,
         # and with potentially more packages loaded in the collection,
         # allowing to resolve more aliases.
-        # Expanding wildcards can load packages, whose own wildcards are then expanded the same way.
+        # Expanding wildcards can load packages, whose own wildcards are then expanded the same way,
+        # and can provide the names that other wildcard imports go through:
+        # we repeat until no package gets loaded and no wildcard import gets expanded any more.
+        def wildcards_left(obj: Object) -> int:
+            count = 0
+            for member in obj.members.values():
+                if member.is_alias:
+                    count += bool(member.wildcard)  # type: ignore[union-attr]
+                elif member.is_module:
+                    count += wildcards_left(member)  # type: ignore[arg-type]
+            return count
+
         def expand_all_wildcards() -> None:
-            expanded_modules = -1
-            while expanded_modules != len(collection):
-                expanded_modules = len(collection)
+            state = None
+            while state != (len(collection), sum(wildcards_left(module) for module in collection.values())):
+                state = (len(collection), sum(wildcards_left(module) for module in collection.values()))
                 for wildcards_module in list(collection.values()):
                     self.expand_wildcards(wildcards_module, external=external)
 
@@ -259,8 +270,9 @@ class GriffeLoader:
             # An iteration that resolved aliases or loaded packages calls for another one,
             # even if it ends with the same unresolved aliases as the previous iteration.
             progress = bool(resolved) or len(collection) != loaded_modules
-            # Wildcard imports from packages that just got loaded can now be expanded.
-            if len(collection) != loaded_modules:
+            # Wildcard imports from packages that just got loaded can now be expanded,
+            # as well as wildcard imports whose module is reached through aliases that just got resolved.
+            if progress:
                 expand_all_wildcards()
             logger.debug(
                 "Iteration %s finished, %s aliases resolved, still %s to go",
